@@ -72,11 +72,10 @@ type stateChange struct {
 // (notify uses drop-OLDEST coalescing), so a concurrent Close()'s inject(evClose) always
 // makes progress (spec §5.3, Codex rounds 4-5).
 type supervisor struct {
-	state         atomic.Uint32              // stores a ConnState; lock-free hot-path reads + State()
+	state         atomic.Uint32              // ConnState in the low stateBits, synchronous-commit count above; lock-free reads + State()
 	lastReacted   ConnState                  // run-owned; dedups reactions/notify (H3; tolerates the H2 pre-commit)
 	closed        bool                       // run-owned; LATCHED true once evClose is processed (I2) — later events ignored
 	gens          atomic.Uint32              // TCP generations committed so far (CommitConnected); stamps evDisconnect
-	commits       atomic.Uint32              // synchronous commits so far (Connected, Selected, SelectLost); stamps evT7Timeout
 	events        chan fsmEvent              // SOLE reader is run(); GUARANTEED command queue (inject blocks, never drops)
 	notify        chan stateChange           // SOLE sender is run(); NON-BLOCKING drop-OLDEST coalescing
 	droppedNotify atomic.Uint64              // count of coalesced/dropped notifications; surfaced via a rate-limited Warn (M4)
@@ -197,6 +196,15 @@ func transition(cur ConnState, ev fsmEvent) (ConnState, bool) {
 // fresh supervisor, whose state word starts at NotConnected again.
 const stateClosed = ^uint32(0)
 
+// The state word carries the ConnState in its low stateBits and, above them, the number of synchronous
+// commits so far (Connected, Selected, SelectLost). The count stamps evT7Timeout; it lives in the SAME
+// word as the state so that step's CAS for a T7 expiry fails whenever ANY commit landed since step
+// loaded the word — also a select and a deselect that together leave the state at NotSelected again.
+const (
+	stateBits        = 8
+	stateMask uint32 = 1<<stateBits - 1
+)
+
 // State returns the current logical E37 state via a lock-free atomic read.
 func (s *supervisor) State() ConnState {
 	v := s.state.Load()
@@ -204,7 +212,31 @@ func (s *supervisor) State() ConnState {
 		return NotConnectedState
 	}
 
-	return ConnState(v)
+	return ConnState(v & stateMask)
+}
+
+// commit performs one synchronous commit: a guarded CAS from -> to on the state part of the word
+// that, in the same atomic step, advances the commit count carried above it.
+func (s *supervisor) commit(from, to ConnState) bool {
+	for {
+		w := s.state.Load()
+		if w == stateClosed || ConnState(w&stateMask) != from {
+			return false
+		}
+		if s.state.CompareAndSwap(w, (w>>stateBits+1)<<stateBits|uint32(to)) {
+			return true
+		}
+	}
+}
+
+// setState stores the state part of the word and keeps the commit count of the moment (never an older one).
+func (s *supervisor) setState(next ConnState) {
+	for {
+		w := s.state.Load()
+		if s.state.CompareAndSwap(w, w&^stateMask|uint32(next)) {
+			return
+		}
+	}
 }
 
 // CommitConnected performs the synchronous TCP-up commit (symmetric with CommitSelected / §7.D):
@@ -220,8 +252,7 @@ func (s *supervisor) CommitConnected() (committed bool) {
 	// A new TCP generation: bump the generation count BEFORE the state word shows it, so a TCPDown of
 	// the previous generation that is still queued is recognized as stale however step interleaves.
 	s.gens.Add(1)
-	s.commits.Add(1)
-	if s.state.CompareAndSwap(uint32(NotConnectedState), uint32(NotSelectedState)) {
+	if s.commit(NotConnectedState, NotSelectedState) {
 		s.inject(evTCPUp)
 
 		return true
@@ -238,10 +269,9 @@ func (s *supervisor) CommitConnected() (committed bool) {
 // pre-committed state). It returns whether THIS call performed the commit; a call when already
 // Selected is a no-op returning false.
 func (s *supervisor) CommitSelected() (committed bool) {
-	if s.state.CompareAndSwap(uint32(NotSelectedState), uint32(SelectedState)) {
-		// Reaching Selected ends the NOT-SELECTED dwell for good: a T7 expiry raised before this
-		// point is stale from now on, also after a later deselect.
-		s.commits.Add(1)
+	// Reaching Selected ends the NOT-SELECTED dwell for good (the commit count moves with the state):
+	// a T7 expiry raised before this point is stale from now on, also after a later deselect.
+	if s.commit(NotSelectedState, SelectedState) {
 		s.inject(evSelectAccepted | evStamped) // stamped: the state word already shows this select
 
 		return true
@@ -261,10 +291,9 @@ func (s *supervisor) CommitSelected() (committed bool) {
 // tolerating the pre-committed state via the evSelectLost-from-NotSelected table entry). It returns
 // whether THIS call performed the commit; a call when not Selected is a no-op returning false.
 func (s *supervisor) CommitSelectLost() (committed bool) {
-	if s.state.CompareAndSwap(uint32(SelectedState), uint32(NotSelectedState)) {
-		// A new NOT-SELECTED dwell begins (the transport arms a fresh T7 for it): an expiry raised
-		// while the session was still Selected belongs to the dwell before the select.
-		s.commits.Add(1)
+	// A new NOT-SELECTED dwell begins (the transport arms a fresh T7 for it): an expiry raised
+	// while the session was still Selected belongs to the dwell before the select.
+	if s.commit(SelectedState, NotSelectedState) {
 		s.inject(evSelectLost)
 
 		return true
@@ -325,7 +354,8 @@ func (s *supervisor) step(ev fsmEvent) {
 		// long gone, and the live generation must not be taken down by it.
 		return
 	}
-	if stamped && ev == evT7Timeout && stamp != stampOf(s.commits.Load()) {
+	w := s.state.Load()
+	if stamped && ev == evT7Timeout && stamp != stampOf(w>>stateBits) {
 		// A T7 expiry raised before the session reached Selected (or while it was Selected, or in an
 		// earlier generation) and processed only now: even if the state is NotSelected again (a
 		// later deselect), that dwell is over — a session that has reached Selected is never
@@ -333,7 +363,7 @@ func (s *supervisor) step(ev fsmEvent) {
 		return
 	}
 
-	cur := ConnState(s.state.Load())
+	cur := ConnState(w & stateMask)
 
 	// Test seam (T24b): lets a test deterministically interpose a concurrent CommitSelected between
 	// the state.Load() above and the evT7Timeout CAS below, exercising the tie the CAS closes. nil in
@@ -374,11 +404,11 @@ func (s *supervisor) step(ev fsmEvent) {
 			// entering-Selected reaction. This makes "never torn down by a stale T7" hold BY
 			// CONSTRUCTION, with no TOCTOU.
 			if ev == evT7Timeout {
-				if !s.state.CompareAndSwap(uint32(cur), uint32(next)) {
+				if !s.state.CompareAndSwap(w, w&^stateMask|uint32(next)) {
 					return // concurrent commit changed state; the T7 disconnect is stale — abandon it
 				}
 			} else {
-				s.state.Store(uint32(next))
+				s.setState(next)
 			}
 		}
 
@@ -464,7 +494,7 @@ func (s *supervisor) inject(ev fsmEvent) {
 	}
 	if ev == evT7Timeout {
 		// a T7 expiry belongs to the NOT-SELECTED dwell that is current when it is raised
-		ev |= evStamped | stampOf(s.commits.Load())<<evStampShift
+		ev |= evStamped | stampOf(s.state.Load()>>stateBits)<<evStampShift
 	}
 	select {
 	case s.events <- ev:
